@@ -41,7 +41,7 @@ Proof. exact commit_journal_checksum. Qed.
 Theorem C04_commit_wal_checksum : forall s frames commit s',
   CacheOK s -> LockZero s -> (forall p, pageN s < p -> dbc s p = 0) ->
   op_commit_wal s frames commit = (Done, s') ->
-  chk s' = scratch (eff s commit (tx_new s frames)) commit /\
+  chk s' = scratch (eff s commit (tx_new s frames commit)) commit /\
   txid s' = txid s + 1 /\ pageN s' = commit /\ CacheOK s' /\ (forall p, dbc s' p = dbc s p).
 Proof. exact commit_wal_checksum. Qed.
 
